@@ -17,6 +17,7 @@
 package messageview
 
 import (
+	"bufio"
 	"bytes"
 	"compress/flate"
 	"compress/gzip"
@@ -253,8 +254,24 @@ func (mv *MessageView) BodyReader(opts ...Option) (io.ReadCloser, error) {
 		return ioutil.NopCloser(r), nil
 	}
 
+	// A message can announce a content coding without carrying a body (response
+	// to HEAD, 304, Content-Length: 0) and the body may have been left out of
+	// the snapshot (SkipBody): an empty body decodes to an empty body, it is not
+	// a truncated chunked or compressed stream.
+	if mv.traileroffset == mv.bodyoffset {
+		return ioutil.NopCloser(r), nil
+	}
+
 	if mv.chunked {
 		r = httputil.NewChunkedReader(r)
+	}
+	if mv.compress == "gzip" || mv.compress == "deflate" {
+		// e.g. a chunked response to HEAD: "0\r\n" de-chunks to nothing.
+		br := bufio.NewReader(r)
+		if _, err := br.Peek(1); err == io.EOF {
+			return ioutil.NopCloser(br), nil
+		}
+		r = br
 	}
 	switch mv.compress {
 	case "gzip":
